@@ -683,7 +683,7 @@ class Engine:
     def pending_failures(self):
         return [(rec, st) for rec in self.probes.values() if rec.active
                 for st in rec.stages
-                if st.get("raises") is not None and st["kind"] in self.EXACT_KINDS
+                if (st.get("raises") is not None or st.get("reenter")) and st["kind"] in self.EXACT_KINDS
                 and not st.get("post") and not st.get("model_fired")]
 
     def after_event(self, ev):
@@ -699,6 +699,14 @@ class Engine:
                 continue
             before = st.get("model_seen", 0)
             st["model_seen"] = before + len(exp)
+            if st.get("reenter"):
+                if before < st["reenter"]["at"] <= before + len(exp):
+                    # the subscriber calls the program again, from inside this delivery
+                    st["model_fired"] = True
+                    self.sim.reach("subscriber_reentry_modelled")
+                    trcv = self.sim.v["trc"]
+                    self.sim.call_thunk(st["reenter"]["call"])(trcv, trcv.env)
+                continue
             if before < st["raises"] <= before + len(exp):
                 st["model_fired"] = True
                 self.sim.reach("subscriber_failure_modelled")
@@ -942,13 +950,18 @@ class Engine:
         st = {
             "kind": op["kind"], "cap": op["cap"], "next": [], "completed": 0,
             "errors": [], "since": len(rec.exp_all), "raises": None if post else op.get("raises"),
-            "n_seen": 0, "post": post,
+            "n_seen": 0, "post": post, "reenter": None if post else op.get("reenter"),
         }
         if post:
             self.sim.reach("stage_attached_after_deactivation")
 
         def on_next(v, st=st):
             st["n_seen"] += 1
+            if op.get("reenter") and st["n_seen"] == op["reenter"]["at"] and not post:
+                # a subscriber that calls the probed program again while an event is being delivered
+                self.sim.reach("subscriber_reenters")
+                sysv = self.sim.v["sys"]
+                self.sim.call_thunk(op["reenter"]["call"])(sysv, sysv.env)
             if st["raises"] is not None and st["n_seen"] == st["raises"]:
                 st["raised"] = True
                 self.sim.reach("handler_raises")
